@@ -56,6 +56,41 @@ def p8_extra(mod, tree, src):
             out.append(_fail(dname, 'regex_use_count_%d' % len(meths)))
         else:
             out.append('Definition %s : list Z := %s.\n' % (dname, _zl(_b(meths[0]))))
+    # the two containment tests, classified by shape (anything else: fail closed)
+    #   include_containment_kind: 0 = plain str.startswith(root) ; 1 = equal to root or startswith(root + sep)
+    #   root_detection_kind:      0 = plain str.startswith(candidate) ; 2 = startswith(candidate + sep)
+    def _shape(expr):
+        return ast.dump(ast.parse(expr, mode='eval').body)
+    inc_shapes = {
+        _shape("not inc_full_path.startswith(root_path)"): 0,
+        _shape("inc_full_path != root_path and not inc_full_path.startswith(os.path.join(root_path, ''))"): 1,
+    }
+    root_shapes = {
+        _shape("full_file_path.startswith(full_candidate_path)"): 0,
+        _shape("full_file_path.startswith(os.path.join(full_candidate_path, ''))"): 2,
+    }
+    try:
+        f = P.find_function(tree, 'process_includes')
+        tests = [n.test for n in P.ordered_nodes(f)
+                 if isinstance(n, ast.If) and n.body and isinstance(n.body[0], ast.Raise)
+                 and 'P8IncludeOutsideOfAllowedDirectory' in ast.dump(n.body[0])]
+        if len(tests) != 1 or ast.dump(tests[0]) not in inc_shapes:
+            out.append(_fail('include_containment_kind', 'include_containment_shape'))
+        else:
+            out.append('Definition include_containment_kind : Z := %d.\n' % inc_shapes[ast.dump(tests[0])])
+    except Exception as e:  # noqa
+        out.append(_fail('include_containment_kind', 'process_includes_%s' % type(e).__name__))
+    try:
+        f = P.find_function(tree, 'get_root_include_path')
+        tests = [n.test for n in P.ordered_nodes(f)
+                 if isinstance(n, ast.If) and len(n.body) == 1 and isinstance(n.body[0], ast.Assign)
+                 and ast.dump(n.body[0]) == ast.dump(ast.parse('root_path = full_candidate_path').body[0])]
+        if len(tests) != 1 or ast.dump(tests[0]) not in root_shapes:
+            out.append(_fail('root_detection_kind', 'root_detection_shape'))
+        else:
+            out.append('Definition root_detection_kind : Z := %d.\n' % root_shapes[ast.dump(tests[0])])
+    except Exception as e:  # noqa
+        out.append(_fail('root_detection_kind', 'get_root_include_path_%s' % type(e).__name__))
     return ''.join(out)
 
 
@@ -95,31 +130,53 @@ def build_extra(mod, tree, src):
     except Exception as e:  # noqa
         out.append(_fail('build_sections', 'do_build_%s' % type(e).__name__))
 
-    # _evaluate_require: `if b'./' in require_path or require_path.startswith(b'/')`
+    # _evaluate_require: the test of the `if` that raises the "require() filename cannot ..." error, as a list of
+    # atoms joined by `or`:  (0, [], [])  not require_path            (1, c, [])  c in require_path
+    #                        (2, c, [])   require_path.startswith(c)  (3, c, d)   c in require_path.split(d)
+    # require_filter_contains / require_filter_prefix (the first atom of kind 1 / 2) are kept for older users.
+    def _atom(t):
+        def isreq(x):
+            return isinstance(x, ast.Name) and x.id == 'require_path'
+
+        def isb(x):
+            return isinstance(x, ast.Constant) and isinstance(x.value, bytes)
+        if isinstance(t, ast.UnaryOp) and isinstance(t.op, ast.Not) and isreq(t.operand):
+            return (0, b'', b'')
+        if isinstance(t, ast.Compare) and len(t.ops) == 1 and isinstance(t.ops[0], ast.In) and isb(t.left):
+            c = t.comparators[0]
+            if isreq(c):
+                return (1, t.left.value, b'')
+            if (isinstance(c, ast.Call) and isinstance(c.func, ast.Attribute) and c.func.attr == 'split'
+                    and isreq(c.func.value) and len(c.args) == 1 and not c.keywords and isb(c.args[0])
+                    and len(c.args[0].value) == 1):
+                return (3, t.left.value, c.args[0].value)
+        if (isinstance(t, ast.Call) and isinstance(t.func, ast.Attribute) and t.func.attr == 'startswith'
+                and isreq(t.func.value) and len(t.args) == 1 and not t.keywords and isb(t.args[0])):
+            return (2, t.args[0].value, b'')
+        return None
     try:
         f = P.find_function(tree, '_evaluate_require')
-        found = None
-        for n in P.ordered_nodes(f):
-            if isinstance(n, ast.If) and isinstance(n.test, ast.BoolOp) and isinstance(n.test.op, ast.Or) \
-                    and len(n.test.values) == 2:
-                a, b = n.test.values
-                if (isinstance(a, ast.Compare) and len(a.ops) == 1 and isinstance(a.ops[0], ast.In)
-                        and isinstance(a.left, ast.Constant) and isinstance(a.left.value, bytes)
-                        and isinstance(a.comparators[0], ast.Name) and a.comparators[0].id == 'require_path'
-                        and isinstance(b, ast.Call) and isinstance(b.func, ast.Attribute)
-                        and b.func.attr == 'startswith' and isinstance(b.func.value, ast.Name)
-                        and b.func.value.id == 'require_path' and len(b.args) == 1
-                        and isinstance(b.args[0], ast.Constant) and isinstance(b.args[0].value, bytes)
-                        and isinstance(n.body[0], ast.Raise)):
-                    found = (a.left.value, b.args[0].value)
-                    break
-        if found is None:
-            out.append(_fail('require_filter_contains', 'require_filter_shape'))
+        ifs = [n for n in P.ordered_nodes(f)
+               if isinstance(n, ast.If) and n.body and isinstance(n.body[0], ast.Raise) and not n.orelse
+               and 'require() filename cannot' in ast.dump(n.body[0])]
+        atoms = None
+        if len(ifs) == 1:
+            t = ifs[0].test
+            vals = t.values if isinstance(t, ast.BoolOp) and isinstance(t.op, ast.Or) else [t]
+            atoms = [_atom(v) for v in vals]
+        if not atoms or any(a is None for a in atoms):
+            out.append(_fail('require_filter_atoms', 'require_filter_shape'))
         else:
-            out.append('Definition require_filter_contains : list Z := %s.\n' % _zl(found[0]))
-            out.append('Definition require_filter_prefix : list Z := %s.\n' % _zl(found[1]))
+            rows = ';\n   '.join('(%d, %s, %s)' % (k, _zl(c), _zl(d)) for k, c, d in atoms)
+            out.append('Definition require_filter_atoms : list (Z * list Z * list Z) :=\n  [%s].\n' % rows)
+            k1 = [c for k, c, d in atoms if k == 1]
+            k2 = [c for k, c, d in atoms if k == 2]
+            if k1:
+                out.append('Definition require_filter_contains : list Z := %s.\n' % _zl(k1[0]))
+            if k2:
+                out.append('Definition require_filter_prefix : list Z := %s.\n' % _zl(k2[0]))
     except Exception as e:  # noqa
-        out.append(_fail('require_filter_contains', 'evaluate_require_%s' % type(e).__name__))
+        out.append(_fail('require_filter_atoms', 'evaluate_require_%s' % type(e).__name__))
 
     # _locate_require_file: split(';') and replace('?', p)
     try:
